@@ -927,3 +927,43 @@ def comparisons_with_loop_constants_can_hold(qualname):
                         out.append(_ob(qualname, "comparison-can-hold:%s-in-%d-constants@L%d" % (c.left.id, len(consts(rhs)), c.lineno), not dead, c.lineno,
                                        "`%s` ranges over %r; the test `%s` at line %d names %s" % (c.left.id, vals, ast.unparse(c), c.lineno, ("values it never takes: %r" % dead) if dead else "only values it takes")))
     return out
+
+
+def rules_can_fire(qualname):
+    """validation code whose test can never fail or never hold, by construction of the expression itself:
+    `assert (cond, msg)` (a non-empty tuple is always true), an `elif` repeating an earlier test of the same chain, a Boolean
+    operation with the same operand twice (`a or a`: the second operand was meant to be something else), a comparison of an
+    expression with itself, statements after an unconditional raise / return / continue / break in the same block"""
+    fi = source.lookup(qualname)
+    out = []
+    pure = lambda e: not any(isinstance(x, (ast.Call, ast.Await, ast.Yield, ast.NamedExpr)) and not (isinstance(x, ast.Call) and isinstance(x.func, (ast.Name, ast.Attribute)) and (getattr(x.func, "attr", None) or getattr(x.func, "id", "")) in ("len", "isfinite", "isnan", "isna", "isinstance", "lower", "strip", "keys", "values")) for x in ast.walk(e))
+    for node in ast.walk(fi.node):
+        if isinstance(node, ast.Assert) and isinstance(node.test, ast.Tuple) and node.test.elts:
+            out.append(_ob(qualname, "assert-can-fail@L%d" % node.lineno, False, node.lineno, "`assert (%s)` tests a non-empty tuple, which is always true: the condition is never checked" % ast.unparse(node.test)[:80]))
+        if isinstance(node, ast.If):
+            seen = [ast.dump(node.test)]
+            cur = node
+            while len(cur.orelse) == 1 and isinstance(cur.orelse[0], ast.If):
+                cur = cur.orelse[0]
+                d = ast.dump(cur.test)
+                if d in seen and pure(cur.test):
+                    out.append(_ob(qualname, "elif-can-be-reached@L%d" % cur.lineno, False, cur.lineno, "`elif %s` repeats an earlier test of the same chain: its branch can never run" % ast.unparse(cur.test)[:80]))
+                seen.append(d)
+        if isinstance(node, ast.BoolOp):
+            dumps = [ast.dump(v) for v in node.values]
+            for i, d in enumerate(dumps):
+                if d in dumps[:i] and pure(node.values[i]):
+                    out.append(_ob(qualname, "boolean-operands-distinct@L%d" % node.lineno, False, node.lineno, "`%s` names the operand `%s` twice: one of them was meant to be something else" % (ast.unparse(node)[:100], ast.unparse(node.values[i])[:50])))
+        if isinstance(node, ast.Compare) and len(node.ops) == 1 and pure(node.left) and ast.dump(node.left) == ast.dump(node.comparators[0]) and not isinstance(node.ops[0], (ast.Is, ast.IsNot)):
+            if not (isinstance(node.ops[0], (ast.Eq, ast.NotEq)) and isinstance(node.left, (ast.Name, ast.Attribute, ast.Subscript))):  # x != x is the NaN idiom
+                out.append(_ob(qualname, "comparison-of-an-expression-with-itself@L%d" % node.lineno, False, node.lineno, "`%s`" % ast.unparse(node)[:80]))
+        for field in ("body", "orelse", "finalbody"):
+            block = getattr(node, field, None)
+            if isinstance(block, list) and block and isinstance(block[0], ast.stmt):
+                for i, st in enumerate(block[:-1]):
+                    if isinstance(st, (ast.Raise, ast.Return, ast.Continue, ast.Break)):
+                        nxt = block[i + 1]
+                        if not (isinstance(nxt, ast.Expr) and isinstance(nxt.value, ast.Constant)):
+                            out.append(_ob(qualname, "statement-reachable@L%d" % nxt.lineno, False, nxt.lineno, "the statement at line %d follows an unconditional `%s` in the same block and can never run" % (nxt.lineno, type(st).__name__.lower())))
+                        break
+    return out
